@@ -224,6 +224,33 @@ fn seeds(prop: &str) -> Vec<(&'static str, Vec<Op>)> {
     let mut reopened = interleaved;
     reopened.push(Op::Reopen);
     v.push(("time-interleaved-overlapping-files-reopened", reopened));
+    // two disjoint files at each of the two oldest levels, the upper right one ([ab..b], holding
+    // a tombstone for b) hanging over both lower ones ([a..ab] and [b..b]): a compaction of the
+    // upper left file [a..a] with [a..ab] must leave [ab..b] alone, or the tombstone is collected
+    // although the value it shadows stays behind in [b..b]
+    v.push((
+        "disjoint-pairs-at-two-levels",
+        vec![
+            Op::Put(0),
+            Op::Put(1),
+            Op::Flush,
+            Op::CompactAll,
+            Op::Put(2),
+            Op::Flush,
+            Op::CompactAll,
+            Op::PutHuge(0),
+            Op::Flush,
+            Op::CompactAll,
+            Op::Put(1),
+            Op::Del(2),
+            Op::Flush,
+            Op::CompactAll,
+            // a big newer file above: once it has sunk next to the pair, the size curve lets the
+            // compaction of [a..a] with [a..ab] be selected
+            Op::PutHuge(0),
+            Op::Flush,
+        ],
+    ));
     if prop == "C05" || prop == "C08" || prop == "C04" {
         // every entry in a file of its own: an old single-key file at the oldest level, and a
         // newer file around it in level 0 (the next compaction re-creates the old file)
